@@ -631,7 +631,11 @@ fn with(mut op: Value, kv: &[(&str, Value)]) -> Value {
 // ---------------------------------------------------------------------------------------------
 // seeded random driver at real scale (documented limits: 15 rules, 15 signers, 5 policies)
 // ---------------------------------------------------------------------------------------------
-const EXT: [&str; 13] = ["s1", "s2", "s3", "s4", "s5", "s6", "s7", "s8", "s9", "s10", "s11", "s12", "u"];
+// (20 external signers: one check over two or three contexts served by different rules can carry more signatures than
+// any single rule may hold signers)
+const EXT: [&str; 21] = ["s1", "s2", "s3", "s4", "s5", "s6", "s7", "s8", "s9", "s10", "s11", "s12", "s13", "s14", "s15", "s16",
+                         "s17", "s18", "s19", "s20", "u"];
+const UNKNOWN: [&str; 6] = ["u", "u1", "u2", "u3", "u4", "u5"];
 const DEL: [&str; 4] = ["d", "d1", "d2", "d3"];
 const CTXS: [&str; 7] = ["c1", "c2", "c3", "w1", "w2", "v1", "v2"];
 
@@ -647,7 +651,7 @@ impl Drv {
         if small {
             vec!["s1", "s2", "d", "s3"]
         } else {
-            EXT[..12].iter().chain(DEL.iter()).cloned().collect()
+            EXT[..20].iter().chain(DEL.iter()).cloned().collect()
         }
     }
 }
@@ -812,6 +816,14 @@ fn drive_run(t: &mut Trace, d: &mut Drv, run: usize, len: usize) {
                 }
                 if d.r.gen_bool(0.15) && !sigs.contains(&"u".to_string()) {
                     sigs.push("u".to_string());
+                }
+                if d.r.gen_bool(0.06) {
+                    // a handful of valid signatures of signers no rule names
+                    for x in UNKNOWN {
+                        if !sigs.contains(&x.to_string()) {
+                            sigs.push(x.to_string());
+                        }
+                    }
                 }
                 let bad: Vec<String> = if d.r.gen_bool(0.2) && !sigs.is_empty() { vec![pick(&mut d.r, &sigs).clone()] } else { vec![] };
                 with(mkop(if e2e { "e2e" } else { "check" }), &[("sigs", json!(sigs)), ("bad", json!(bad)), ("ctxs", json!(ctxs))])
